@@ -56,6 +56,9 @@ pub enum Rec {
     Made { th: u8, variant: u8, ident: u8, f: u8, g: u8, id: u64 },
     /// `sp::specify` returned for this struct
     Specified { th: u8, id: u64, val: u8 },
+    /// `Post::SpecPrev`: about to specify on a handle of the previous execution / it was accepted
+    SpecPrevAttempt { th: u8, id: u64 },
+    SpecPrevAccepted { th: u8, id: u64 },
     /// value interned
     Interned { th: u8, ty: u8, data: u8, id: u64, in_query: bool },
     /// start of a history operation (index)
@@ -118,6 +121,9 @@ pub struct Cx {
     pub executions: AtomicU64,
     /// event-callback is a user-code callback point (C22) only when this is set
     pub event_points: AtomicBool,
+    /// struct handles kept outside salsa across executions of a creator (`Post::SpecPrev`):
+    /// (creator key, entity index) -> id bits
+    pub stash: Mutex<std::collections::BTreeMap<(u64, u32), u64>>,
 }
 
 impl Cx {
@@ -129,6 +135,7 @@ impl Cx {
             tabs: OnceLock::new(),
             executions: AtomicU64::new(0),
             event_points: AtomicBool::new(false),
+            stash: Mutex::new(std::collections::BTreeMap::new()),
         }
     }
     #[inline]
@@ -855,9 +862,21 @@ pub fn mk<'db>(db: &'db dyn QDb, n: Code) -> MkOut<'db> {
     let mut be = SB { db, in_query: true };
     let mut structs = Vec::new();
     let mut aux = Vec::new();
-    for e in ents {
+    for (ei, e) in ents.iter().enumerate() {
         if eval(&mut be, &e.cond) == 0 {
             continue;
+        }
+        for p in &e.post {
+            if let Post::SpecPrev { val } = p {
+                let prev = cx.stash.lock().unwrap_or_else(|e| e.into_inner()).get(&(n.as_id().as_bits(), ei as u32)).copied();
+                if let Some(bits) = prev {
+                    let v = eval(&mut be, val);
+                    cx.rec(Rec::SpecPrevAttempt { th: cur_thread(), id: bits });
+                    let old = <TS as salsa::plumbing::FromId>::from_id(salsa::Id::from_bits(bits));
+                    sp::specify(db, old, V::new(v));
+                    cx.rec(Rec::SpecPrevAccepted { th: cur_thread(), id: bits });
+                }
+            }
         }
         let ident = eval(&mut be, &e.ident);
         let f = eval(&mut be, &e.f);
@@ -868,6 +887,9 @@ pub fn mk<'db>(db: &'db dyn QDb, n: Code) -> MkOut<'db> {
             TRef::B(TSC::new(db, D(ident), V::new(f), V::new(g)))
         };
         cx.rec(Rec::Made { th: cur_thread(), variant: e.variant, ident, f, g, id: t.id_bits() });
+        if e.variant == 0 && e.post.iter().any(|p| matches!(p, Post::SpecPrev { .. })) {
+            cx.stash.lock().unwrap_or_else(|e| e.into_inner()).insert((n.as_id().as_bits(), ei as u32), t.id_bits());
+        }
         point(P::BodyMid);
         for p in &e.post {
             match p {
@@ -883,6 +905,7 @@ pub fn mk<'db>(db: &'db dyn QDb, n: Code) -> MkOut<'db> {
                 Post::CallSp => {
                     aux.push(call_on_ts(db, t, 2));
                 }
+                Post::SpecPrev { .. } => {}
                 Post::SpecOther { cond, node, idx, val } => {
                     if eval(&mut be, cond) != 0 {
                         let v = eval(&mut be, val);
